@@ -93,6 +93,10 @@ func iosScript(rng *rand.Rand, idx int) liveScenario {
 type c15Case struct {
 	Script int         `json:"script"`
 	Banner *sim.Banner `json:"banner,omitempty"`
+	// The running configuration equals the start-up configuration: the
+	// router arms the reload without the 'Save?' question (the dialogue
+	// is one line shorter than in the reference run).
+	Unmodified bool `json:"unmodified,omitempty"`
 	// From the reference run.
 	StepClass string `json:"step_class"`
 	StepRaw   string `json:"step_raw"`
@@ -106,6 +110,9 @@ func (c *c15Case) id() string {
 	if c.Banner.HH {
 		hh = "/hh"
 	}
+	if c.Unmodified {
+		hh += "/unmodified"
+	}
 	return fmt.Sprintf("script%d/%s@%d/%s/%s%s", c.Script, c.Banner.Form, c.Banner.Ord, c.Banner.Kind, c.Banner.Chunk, hh)
 }
 
@@ -118,6 +125,9 @@ func buildC15(sc liveScenario, c *c15Case, doApprove bool) *liveCase {
 	lc.Timeout = 3
 	if c.Banner != nil {
 		lc.Cli.Banners = []sim.Banner{*c.Banner}
+	}
+	if c.Unmodified {
+		lc.Cli.Modified = false
 	}
 	return lc
 }
@@ -225,6 +235,15 @@ func checkC15(tier, replay string) int {
 			cases = append(cases, &c15Case{Script: si})
 			inWindow := false
 			evs := refs[si].events
+			// Received line that answers the 'Save?' question of the
+			// first arm dialogue; it does not exist on a router whose
+			// configuration is unmodified.
+			saveOrd := -1
+			for j, e := range evs {
+				if strings.HasPrefix(e.Raw, "reload in") && saveOrd < 0 && j+1 < len(evs) {
+					saveOrd = evs[j+1].Ord
+				}
+			}
 			for j, e := range evs {
 				if strings.HasPrefix(e.Raw, "reload in") {
 					inWindow = true
@@ -287,6 +306,21 @@ func checkC15(tier, replay string) int {
 									continue
 								}
 								cases = append(cases, c)
+								// Twin on a router that does not ask 'Save?'.
+								if !hh && e.Ord != saveOrd && (tier == "thorough" || sampleHash(c.id()+"u", env.Seed)%3 == 0) {
+									u := *c
+									ub := *c.Banner
+									if e.Ord > saveOrd {
+										ub.Ord--
+									}
+									if strings.HasPrefix(e.Raw, "reload in") {
+										// this step's dialogue differs: placement not comparable
+										continue
+									}
+									u.Banner = &ub
+									u.Unmodified = true
+									cases = append(cases, &u)
+								}
 							}
 						}
 					}
